@@ -17,6 +17,17 @@ CHECKS = {
     design="§6 C08", technique="Lean 4 proof over source-extracted definitions + model/implementation correspondence"),
 }
 
+CHECKS["C03"] = dict(
+    text="Theorems (Lean 4): (a) doc_eq_sem — the transcription of create_formula applied to the fully parenthesised term of any "
+         "README formula yields a code-level formula whose semantics is the documented LTL_f reading (incl. the expansions of ;> <; >> << "
+         "keywords, n-fold); (b) tseitin_unique — for every horizon, trace and closed set of (formula, step) pairs, any valuation "
+         "solving the one-step equations (the transcription of every do_translate, with placeholders beyond the horizon resolved by "
+         "weakness) is that semantics; (c) C03_value / C03_redecided combine them per horizon.  No bound on nesting, sharing, horizon.  "
+         "Tie: on every run the real implementation's literal valuation in every answer set is checked to solve exactly these equations on "
+         "all reachable pairs and each theory atom to equal its root formula (instrumentation from outside, no hook).  Search: witness "
+         "atoms at every state against the executable LTL_f specification on all traces.",
+    design="§6 C03", technique="Lean 4 proof (unique solution of the translation's equation system = LTL_f) + equation-level correspondence with the real translation")
+
 NOT_YET = {}
 
 def main():
